@@ -185,6 +185,18 @@ class Builder:
                 return fut
             if "__obj__" in j:
                 cls = _resolve(j["__obj__"])
+                if isinstance(cls, type) and issubclass(cls, BaseException):
+                    # exception objects cannot be made by object.__new__; their constructor arguments are `args`
+                    a = self.build(j["fields"].get("args", ())) if "args" in j["fields"] else ()
+                    try:
+                        obj = cls(*a)
+                    except TypeError:
+                        obj = cls.__new__(cls)
+                    self.refs[j["id"]] = obj
+                    for k, v in j["fields"].items():
+                        if k != "args":
+                            object.__setattr__(obj, k, self.build(v))
+                    return obj
                 obj = object.__new__(cls)
                 self.refs[j["id"]] = obj
                 for k, v in j["fields"].items():
